@@ -581,6 +581,85 @@ def inline_fresh_helpers(tree: ast.Module, ref_mod: dict) -> None:
     ast.fix_missing_locations(tree)
 
 
+def unroll_fresh_generators(tree: ast.Module, ref_mod: dict) -> None:
+    """A generator method the reference does not have, whose body is a fixed sequence of `yield E` and `for x in it: yield E`,
+    used only as `for T in self.g(): BODY`: the loop is written out -- per yield `T = E` + BODY, per yielding loop the loop
+    with `T = E` + BODY inside.  Generator and consumer run interleaved in exactly that order."""
+    ref_funcs = set(ref_mod.get("funcs", {}))
+    for c in [n for n in tree.body if isinstance(n, ast.ClassDef)]:
+        for g in [m for m in c.body if isinstance(m, ast.FunctionDef)]:
+            if f"{c.name}.{g.name}" in ref_funcs or g.decorator_list or _params(g) != ["self"]:
+                continue
+            body = _strip_doc(g.body)
+
+            def y_of(st):
+                return st.value.value if isinstance(st, ast.Expr) and isinstance(st.value, ast.Yield) and st.value.value is not None else None
+            ok = bool(body)
+            for st in body:
+                if y_of(st) is not None:
+                    continue
+                if isinstance(st, ast.For) and not st.orelse and len(st.body) == 1 and y_of(st.body[0]) is not None and isinstance(st.target, ast.Name):
+                    continue
+                ok = False
+            if not ok:
+                continue
+            mangled = f"_{c.name}{g.name}" if g.name.startswith("__") and not g.name.endswith("__") else g.name
+            refs = [x for x in ast.walk(tree) if isinstance(x, ast.Attribute) and x.attr in (g.name, mangled)]
+            sites = []
+            for m in [m for m in c.body if isinstance(m, ast.FunctionDef) and m is not g]:
+                for _owner, _fld, blk in blocks_of(m):
+                    for i, st in enumerate(blk):
+                        if isinstance(st, ast.For) and isinstance(st.iter, ast.Call) and not st.iter.args and not st.iter.keywords and isinstance(st.iter.func, ast.Attribute) \
+                                and st.iter.func.attr in (g.name, mangled) and isinstance(st.iter.func.value, ast.Name) and st.iter.func.value.id == "self":
+                            sites.append((m, blk, st))
+            if not sites or len(sites) != len(refs):
+                continue
+
+            def leaves_loop(stmts):
+                for s_ in stmts:
+                    if isinstance(s_, (ast.Break, ast.Continue)):
+                        return True
+                    if isinstance(s_, (ast.For, ast.While, ast.FunctionDef)):
+                        continue
+                    for fld in ("body", "orelse", "finalbody"):
+                        if leaves_loop(getattr(s_, fld, []) or []):
+                            return True
+                    for h in getattr(s_, "handlers", []) or []:
+                        if leaves_loop(h.body):
+                            return True
+                return False
+            if any(st.orelse or leaves_loop(st.body) for _m, _b, st in sites):
+                continue
+            gen_locals = {st.target.id for st in body if isinstance(st, ast.For)}
+            if any(gen_locals & _assigned_names(m) for m, _b, _st in sites):
+                continue
+            for m, blk, st in sites:
+                new = []
+                for gs in body:
+                    e = y_of(gs)
+                    if e is not None:
+                        new.append(ast.Assign(targets=[copy.deepcopy(st.target)], value=copy.deepcopy(e)))
+                        new += copy.deepcopy(st.body)
+                    else:
+                        inner = [ast.Assign(targets=[copy.deepcopy(st.target)], value=copy.deepcopy(y_of(gs.body[0])))] + copy.deepcopy(st.body)
+                        new.append(ast.For(target=copy.deepcopy(gs.target), iter=copy.deepcopy(gs.iter), body=inner, orelse=[]))
+                for n_ in new:
+                    ast.copy_location(n_, st)
+                    for x in ast.walk(n_):
+                        if isinstance(x, ast.Tuple) and isinstance(getattr(x, "ctx", None), ast.Load) and False:
+                            pass
+                idx = next(k for k, s_ in enumerate(blk) if s_ is st)
+                # the assignment targets need Store context
+                for n_ in ast.walk(ast.Module(body=new, type_ignores=[])):
+                    if isinstance(n_, ast.Assign):
+                        for t_ in ast.walk(n_.targets[0]):
+                            if hasattr(t_, "ctx"):
+                                t_.ctx = ast.Store()
+                blk[idx:idx + 1] = new
+            c.body = [x for x in c.body if x is not g] or [ast.Pass()]
+    ast.fix_missing_locations(tree)
+
+
 def _nested_site(fn: ast.FunctionDef, call: ast.Call, body):
     """(block, index, statement) of the simple statement or if test that evaluates `call` somewhere inside, provided the
     helper is straight-line code ending in its only return and nothing that calls is evaluated before the call."""
